@@ -85,7 +85,10 @@ theorem C04_exact (seq : Nat) (P pad : Bytes) (hs : seq < 8) (hP : P.length ≤ 
     (∀ j, j < hist.length →
       (outs[j]? = some (Out.complete P) ↔
         (seenAll F (hist.take (j + 1)) ∧ ¬ seenAll F (hist.take j)))) := by
-  sorry
+  obtain ⟨d0, T, hF, ok⟩ := L04.framesPad_seg seq P pad hs hP hpad
+  rw [hF] at hrest ⊢
+  simp only [L04.head!_cons, List.tail_cons] at hrest ⊢
+  exact L04.segment_exact ok hs r0 h0 rest hrest
 
 /-- after the segment the stream is empty (message delivered) or holds a record with this
 message's counter — so the next message, which carries a different counter, starts clean:
@@ -97,13 +100,16 @@ theorem C04_after_segment (seq : Nat) (P pad : Bytes) (hs : seq < 8) (hP : P.len
     (rest : List Bytes)
     (hrest : ∀ f ∈ rest, f ∈ (framesPad seq P pad).tail ∨ isStale seq f) :
     ∀ x, (run r0 ((framesPad seq P pad).head! :: rest)).1 = some x → x.seq = seq := by
-  sorry
+  obtain ⟨d0, T, hF, ok⟩ := L04.framesPad_seg seq P pad hs hP hpad
+  rw [hF] at hrest ⊢
+  simp only [L04.head!_cons, List.tail_cons] at hrest ⊢
+  exact (L04.segment_main ok hs r0 h0 rest hrest).2
 
 /-- the result does not depend on padding bytes beyond the announced length -/
 theorem C04_padding_independent (seq : Nat) (P pad pad' : Bytes) (hs : seq < 8) (hP : P.length ≤ 223)
     (hl : pad.length = pad'.length) (hpad : ∀ f ∈ framesPad seq P pad, f.length ≤ 8) :
-    (run none (framesPad seq P pad)).2 = (run none (framesPad seq P pad')).2 := by
-  sorry
+    (run none (framesPad seq P pad)).2 = (run none (framesPad seq P pad')).2 :=
+  L04.padding_independent seq P pad pad' hs hP hl hpad
 
 -- non-vacuity: a permuted, duplicated, padded 3-frame message next to a stale frame
 example :
